@@ -33,7 +33,7 @@ SITES = ['start', 'h.pick', 'tt.kick.ttr.fetch_sub', 'tt.kick.func.call', 'tt.fu
          'h.poll', 'tt.wrap.flags.load', 'tt.wrap.call', 'tt.wrap.ttr.store', 'tt.wrap.flags.or', 'tt.wrap.func.clear', 'tt.wrap.count.inc',
          'tt.wrap.inprogress.dec', 'tt.cancel.ttr.store', 'tt.cancel.flags.or', 'tt.detach.flags.or', 'tt.calls.count.load', 'tt.dtor.flags.load',
          'tt.dtor.inprogress.load', 'tt.dtor.func.clear']
-TAGS = {'calls': 1, 'start': 2, 'uafcall': 3, 'badcall': 4}
+TAGS = {'calls': 1, 'start': 2, 'uafcall': 3, 'badcall': 4, 'dret': 9}     # 9: judged, not part of the model's result log
 STATUS = {'done': 0, 'deadlock': 1, 'budget': 2, 'crash': 3, 'asan': 4}
 KEY_DTOR = 'dtor-passes-inprogress-spin-while-func-call-in-flight'
 KEY_CANCEL = 'body-starts-after-cancel-returned'
@@ -63,12 +63,13 @@ def parse(o):
 
 def term_of(c, p):
     nthr = 2 + c['npool']
-    res = dv.coq_list([ls_common.zpairs(p['results'].get(t, [])) for t in range(nthr)])
+    res = dv.coq_list([ls_common.zpairs([x for x in p['results'].get(t, []) if x[0] != 9]) for t in range(nthr)])
+    dret = [x[1] for t in range(nthr) for x in p['results'].get(t, []) if x[0] == 9]
     ttr, fl, ip, cnt, al, q, _ = p['mem']
-    return '(TC %s %d%%nat %d%%nat %s %s %s %s %s %d %s %d %d %s %d %d)' % (
+    return '(TC %s %d%%nat %d%%nat %s %s %s %s %s %d %s %d %d %s %d %d %s)' % (
         dv.zlit(c['n']), c['npool'], c['budget'], dv.coq_list(['true' if x else 'false' for x in c['rets']]),
         dv.coq_list([UOPS[o] for o in c['prog']]), dv.coq_list([str(x) for x in c['sched']]),
-        ls_common.zpairs(p['steps']), res, p['status'], dv.zlit(ttr), fl, ip, dv.zlit(cnt), al, q)
+        ls_common.zpairs(p['steps']), res, p['status'], dv.zlit(ttr), fl, ip, dv.zlit(cnt), al, q, dv.zlit(dret[0] if dret else -1))
 
 
 def gen_case(r):
